@@ -285,7 +285,31 @@ func c06Exec(c c06Case, res *core.Result) *c06Fail {
 		kc = "concurrent"
 	}
 	removedSince := false
+	// stores that were merged into the store under test stay alive: the two must remain independent
+	type c06Source struct {
+		store factstore.FactStoreWithRemove
+		want  canon.Set
+		step  int
+	}
+	var sources []*c06Source
+	checkSources := func(i int) *c06Fail {
+		for _, src := range sources {
+			got := canon.Set{}
+			for _, f := range allFacts(src.store) {
+				got.Add(f)
+			}
+			if miss, extra := canon.Diff(src.want, got, 4); len(miss) > 0 || len(extra) > 0 {
+				return &c06Fail{i, kc + ":merge:source-store-changed", fmt.Sprintf("step %d: the store that was merged in at step %d is no longer what it was: lost %v, gained %v (the two stores share state)", i, src.step, miss, extra)}
+			}
+		}
+		return nil
+	}
 	for i, op := range c.Ops {
+		if i > 0 {
+			if f := checkSources(i - 1); f != nil {
+				return f
+			}
+		}
 		switch op.Op {
 		case "add":
 			a := op.A.Atom()
@@ -411,8 +435,34 @@ func c06Exec(c c06Case, res *core.Result) *c06Fail {
 				}
 			}
 			res.Ob("merges", 1)
+			// afterwards the source gets an atom of its own: the store under test must not see it
+			src := &c06Source{store: other, want: canon.Set{}, step: i}
+			for _, a := range op.Other {
+				src.want.Add(a.Atom())
+			}
+			for _, a := range op.Other {
+				m := a.Atom()
+				m.Args = append([]ast.BaseTerm{}, m.Args...)
+				if len(m.Args) == 0 {
+					continue
+				}
+				m.Args[len(m.Args)-1] = ast.String(fmt.Sprintf("only-in-source-%d", i))
+				if visible(m) || src.want.Has(m) {
+					continue
+				}
+				other.Add(m)
+				src.want.Add(m)
+				if st.fs.Contains(m) {
+					return &c06Fail{i, kc + ":merge:sees-later-change-of-source", fmt.Sprintf("step %d: %v was added to the merged-in store after Merge and is now contained in the store under test (the two stores share state)", i, m)}
+				}
+				break
+			}
+			sources = append(sources, src)
 		}
 		states[strings.Join(W.Keys(), "")] = true
+	}
+	if f := checkSources(len(c.Ops) - 1); f != nil {
+		return f
 	}
 	res.Ob("model_states", len(states))
 	if len(states) >= 4 {
